@@ -19,6 +19,7 @@ import (
 	"github.com/btcsuite/btclog/v2"
 	"github.com/lightningnetwork/lnd/channeldb"
 	"github.com/lightningnetwork/lnd/chanstate"
+	"github.com/lightningnetwork/lnd/htlcswitch/hop"
 	"github.com/lightningnetwork/lnd/invoices"
 	"github.com/lightningnetwork/lnd/lntypes"
 	"github.com/lightningnetwork/lnd/lnwire"
@@ -335,6 +336,28 @@ func (s *zzSim) finish() {
 	s.finalChecks()
 }
 
+// zzStranded: p is a payment of Bob's own, Bob was restarted after handing it
+// to his switch, and all that is left of it is a half-open circuit (no
+// keystone: the add was never covered by a commitment signature, it lived in
+// the link's mailbox or in the channel's in-memory log when Bob stopped). lnd
+// leaves such a circuit in place and nothing replays or fails the add; no
+// value has moved. Judged once everything is reconnected (links trim their
+// keystones when they start).
+func (s *zzSim) zzStranded(p *zzPay) bool {
+	bob := s.nodes[zzB]
+	if p.sender() != zzB || bob.sw == nil {
+		return false
+	}
+	if p.sendOK && bob.boots <= p.sentBoot {
+		return false
+	}
+	if !p.sendOK && bob.boots <= 1 {
+		return false
+	}
+	c := bob.sw.circuits.LookupCircuit(CircuitKey{ChanID: hop.Source, HtlcID: p.attemptID})
+	return c != nil && !c.HasKeystone()
+}
+
 // owedCommitment returns a connection on which some link owes a commitment
 // signature (peer updates it has acked are missing from the commitment it
 // last signed for the peer) although everything is idle, or -1.
@@ -427,6 +450,17 @@ func (s *zzSim) finalChecks() {
 					return // the rest of the end state is a consequence
 				}
 			}
+		}
+		if !done && s.zzStranded(p) {
+			// the one payer-side shape that is not the forwarder's
+			// business: the sender restarted while the add was only in
+			// memory; the half-open circuit of the local payment stays
+			// and nobody is there to replay or fail the add
+			s.mu.Lock()
+			p.done, p.success, p.resErr, p.stranded = true, false, "stranded: sender restarted before the add was signed for", true
+			done, success, resErr = p.done, p.success, p.resErr
+			s.mu.Unlock()
+			r.Count("probe_own_payment_stranded_by_restart")
 		}
 		if !done {
 			r.Fail("payment-stuck", "%s has no result although the network is quiescent, all links are up and hold invoices were resolved (dangling HTLC or circuit); lnd log tail:\n%s", p, zzLogTail())
@@ -552,8 +586,18 @@ func (s *zzSim) finalChecks() {
 	}
 
 	// 4. circuit maps are empty
-	for _, n := range s.nodes {
+	for i, n := range s.nodes {
 		np, no := n.sw.circuits.NumPending(), n.sw.circuits.NumOpen()
+		if i == zzB {
+			// half-open circuits of Bob's own payments whose add was
+			// lost in a restart (see zzStranded), whether or not
+			// SendHTLC had returned before the crash
+			for _, p := range s.pays {
+				if s.zzStranded(p) {
+					np--
+				}
+			}
+		}
 		if np != 0 || no != 0 {
 			r.Fail("dangling-circuit", "%s's circuit map has %d pending / %d open circuits at quiescence although every payment has a result", n.name, np, no)
 		}
